@@ -9,13 +9,13 @@
 set -u
 D=$(realpath "$1"); P=$2; TIER=${3:-quick}
 NAME=$(basename "$D")
-WT=/tmp/tryseed/wt
+WT=${TRYSEED_WT:-/tmp/tryseed/wt}
 mkdir -p /tmp/tryseed
-exec 9>/tmp/tryseed/lock; flock 9
+exec 9>/tmp/tryseed/lock-$(basename "$WT"); flock 9
 HEAD=$(git -C /repo rev-parse --short HEAD)
 if [ ! -d "$WT" ]; then git -C /repo worktree add -q --detach "$WT" HEAD || exit 2; fi
 cd "$WT"; git checkout -q -- . ; git clean -fdq; git checkout -q --detach "$(git -C /repo rev-parse HEAD)"
-CTRL=/tmp/tryseed/control-$P-$HEAD-$TIER.txt
+CTRL=/tmp/tryseed/control-$(basename "$WT")-$P-$HEAD-$TIER.txt
 if [ ! -f "$CTRL" ]; then
   (cd /verif && VERIF_REPO="$WT" ./check "$P" --tier "$TIER" > /tmp/tryseed/control-$P.log 2>&1; echo "rc=$?" > "$CTRL"; grep -E "^VIOLATION" /tmp/tryseed/control-$P.log | head -3 >> "$CTRL")
 fi
